@@ -43,7 +43,8 @@ func finalPlan(t bs.TB, kind int, in bs.Input) (bs.Plan, bool) {
 			if _, infra := err.(*bs.InfraError); infra {
 				t.Fatalf("%v", err)
 			}
-			ev.Class("skipped_balancer_error_is_C25")
+			// no plan at all (error, panic or a call that never returns) is not an optimal plan
+			fail(t, kind, "no plan produced", in, nil, err.Error())
 			return nil, false
 		}
 		if _, err := bs.CheckValid(in, plan, false); err != nil {
@@ -55,7 +56,10 @@ func finalPlan(t bs.TB, kind int, in bs.Input) (bs.Plan, bool) {
 	members := bs.CloneMembers(in.Members)
 	rounds, stable, err := bs.Settle(bs.Balancer(kind), members, in.Counts, maxRounds)
 	if err != nil {
-		ev.Class("skipped_balancer_error_is_C25")
+		if _, infra := err.(*bs.InfraError); infra {
+			t.Fatalf("%v", err)
+		}
+		fail(t, kind, "no plan produced", in, nil, err.Error())
 		return nil, false
 	}
 	if !stable {
